@@ -227,6 +227,14 @@ package kv
 //@   ensures named-readonly: imp(err == nil && len(opts.OnlyVersions) > 0, opts.ReadOnly)
 //@   ensures ok: imp(err == nil, result0 != nil && fresh(result0) && dbOK(result0) && result0.readonly == opts.ReadOnly)
 //@   ensures failed: imp(err != nil, result0 == nil)
+// Concurrent open and commit (property C03), the per-request obligations the
+// interleaving argument rests on (DESIGN §12.5): a committing writer publishes
+// its version before it retires the parents, and retires a parent by copying
+// it to merged/ BEFORE deleting it from current/ (Commit / moveMergedRoots
+// above): at every instant a committed version is in current/ or in merged/.
+// So an opener must look for every version it listed in BOTH places — a
+// version retired between its LIST and its GET is not gone.
+//@   at call:kv.mergeRoots assert listed-versions-sought-in-both-places: len(persists) == 2 && persists[0] != persists[1]
 //@   at call:kv.mergeRoots assert named-strict: imp(opts.OnlyVersions != nil, !skipUnreadable)
 //@   at call:kv.mergeRoots assert named-exactly: imp(opts.OnlyVersions != nil, versionsToLoad == opts.OnlyVersions)
 //@   at call:kv.mergeRoots assert named-no-list-yet: imp(opts.OnlyVersions != nil, lists == old(lists))
